@@ -247,10 +247,15 @@ Fixpoint exec_items (st : store) (l : list item) : store * option err :=
   | i :: r => match exec_item st i with (st', None) => exec_items st' r | (st', Some e) => (st', Some e) end
   end.
 
+(* a SET statement is applied as a whole or not at all: if one of its assignments is refused, the assignments
+   made before it are taken back (_set_middleware restores the values it found) *)
 Definition set_statement (st : store) (items : list item) : store * option err :=
   match resolve_items st items with
   | Err e => (st, Some e)
-  | Ok items' => exec_items st items'
+  | Ok items' => match exec_items st items' with
+                 | (st', None) => (st', None)
+                 | (_, Some e) => (st, Some e)
+                 end
   end.
 
 (* ---- SET_VAR hints ------------------------------------------------------------------------------------------------ *)
